@@ -3,5 +3,5 @@
 package main
 
 // raceEnabled: the binary was built with -race (thorough tier, props "race": true); scrypt is
-// ~15x slower under the race detector, so the scrypt-bound parts are scaled down.
+// ~40x slower (about 9 s per call) under the race detector, so the scrypt-bound parts are scaled down.
 const raceEnabled = true
